@@ -39,7 +39,7 @@ CHECKS = {
     ),
     "C02": (
         "Hypothesis @given problems x utility sets; first-law invariants recomputed from the input streams",
-        "Generated-input search (1.5k quick / 40k thorough) checking Qh-Qc, Qr, non-negativity and the utility-list net duty of every DI, Total-Process and Total-Site target and record against sums recomputed from the input streams.",
+        "Generated-input search (2.4k quick / 40k thorough) checking Qh-Qc, Qr, non-negativity and the utility-list net duty of every DI, Total-Process and Total-Site target and record against sums recomputed from the input streams.",
         "Sums are exact fractions of the inputs; one known finding (default CU suppressed by the real-scale coverage test) is excluded by an input-only predicate.",
         "DESIGN.md section 5 C02",
     ),
